@@ -191,8 +191,10 @@ impl Archive {
     /// Return the last completely-written band id, if any.
     pub async fn last_complete_band(&self) -> Result<Option<Band>> {
         for band_id in self.list_band_ids().await?.into_iter().rev() {
-            let b = Band::open(self, band_id).await?;
-            if b.is_closed().await? {
+            // Only open a band that has a tail: an interrupted backup can leave a band whose
+            // head is missing or empty, and that must not hide the complete bands before it.
+            if self.band_is_closed(band_id).await? {
+                let b = Band::open(self, band_id).await?;
                 return Ok(Some(b));
             }
         }
